@@ -152,6 +152,10 @@ pub struct VmConfig {
     /// exceeds a fixed fraction of the heap (C09): an OOM or a growing floor is a violation.
     #[serde(default)]
     pub reclaim_cycles: bool,
+    /// with layout32: size of the whole heap address range in 4 MiB chunks (0 = 7 GiB), so that
+    /// the shared chunk pool of the Map32 layout actually runs out
+    #[serde(default)]
+    pub layout32_chunks: usize,
     /// parameters of a component simulation (plan == "comp"; meaning depends on `focus`)
     #[serde(default)]
     pub comp: Vec<u64>,
@@ -184,6 +188,7 @@ impl Default for VmConfig {
             kf_probe: false,
             reclaim_cycles: false,
             comp: Vec::new(),
+            layout32_chunks: 0,
         }
     }
 }
